@@ -85,6 +85,7 @@ func checkC18(c *Ctx) {
 	r.Rule("C18/UI", "webui message JSON: msg.HTML() flows only into sanitize.HTML, msg.Text() only into web.TextToHTML")
 	c.c18Policy()
 	c.c18Order()
+	c.c18Total()
 	c.c18Attr()
 	c.c18CSS()
 	c.c18Text()
@@ -163,6 +164,41 @@ func (c *Ctx) c18Policy() {
 		r.Bad("C18/POLICY", "sanitize.policy", site, "%s", strings.Join(probs, "; "))
 	} else {
 		r.Ok("C18/POLICY", "sanitize.policy", site, "%d bluemonday calls, all from the confirmed table; no forbidden element or on* attribute", n)
+	}
+}
+
+// c18Total: sanitising cannot fail on malformed or oversized markup. The tag rewriter reads from
+// an in-memory reader, so its only failure source would be a token-buffer limit on the tokenizer.
+func (c *Ctx) c18Total() {
+	r, p := c.R, c.P
+	r.Rule("C18/TOTAL", "the HTML tokenizer of the tag rewriter has no token-buffer limit (no SetMaxBuf with a non-zero bound): with a limit, one long token makes sanitize.HTML fail instead of sanitising")
+	var bad []string
+	n := 0
+	for _, fn := range pkgFuncs(p, sanRel) {
+		fn := fn
+		eng.EachInstr(fn, func(in ssa.Instruction) {
+			ci, ok := in.(ssa.CallInstruction)
+			if !ok {
+				return
+			}
+			name := eng.CalleeName(ci.Common())
+			if strings.HasSuffix(name, "html.NewTokenizer") || strings.HasSuffix(name, "html.NewTokenizerFragment") {
+				n++
+			}
+			if strings.HasSuffix(name, "html.Tokenizer).SetMaxBuf") {
+				args := ci.Common().Args
+				if k, isK := eng.ConstInt(args[len(args)-1]); isK && k == 0 {
+					return
+				}
+				bad = append(bad, p.InstrPos(in))
+			}
+		})
+	}
+	r.Floor("C18/TOTAL", "tokenizers created in the sanitiser", n, 1)
+	if len(bad) > 0 {
+		r.Bad("C18/TOTAL", "tokenizer-unbounded", bad[0], "the tokenizer is given a token-buffer limit at %s: a single text run, comment, attribute value or raw-text element longer than the limit makes the tokenizer fail with ErrBufferExceeded, sanitize.HTML returns an error and the message body is not shown", strings.Join(bad, ", "))
+	} else {
+		r.Ok("C18/TOTAL", "tokenizer-unbounded", "", "no token-buffer limit is set on the tokenizer")
 	}
 }
 
